@@ -165,9 +165,16 @@ class FileResponseMixin:
         }
         if download_name or content_type == "application/octet-stream":
             download_name = download_name or os.path.basename(filepath)
+            # `filename=` is a quoted-string and header text is Latin-1 at best:
+            # it gets a printable-ASCII fallback without `"` and `\`, while
+            # `filename*=` carries the real name percent-encoded (RFC 6266).
+            fallback_name = "".join(
+                char if " " <= char <= "~" and char not in '"\\' else "_"
+                for char in download_name
+            )
             content_disposition = (
                 "attachment; "
-                f'filename="{download_name}"; '
+                f'filename="{fallback_name}"; '
                 f"filename*=utf-8''{quote(download_name)}"
             )
             headers["content-disposition"] = content_disposition
